@@ -284,3 +284,30 @@ Definition genome_trace_head := genome_trace FIXED_ORDER AHEAD.
 Definition SYNC_AHEAD := false.            (* fix-3 *)
 Definition synched_head (order : list bname) (gs : list (bname * ids)) : trace ids :=
   if SYNC_AHEAD then synched_ahead bname zlist_eqb ids [] order gs else synched bname zlist_eqb ids [] order gs.
+
+(* ================= the decision rules as functions of flags =================
+   One flag per atomic test of the source (`name in self._ignored`, `next_name in seen`, ...).  Bridge/C12.v proves
+   (a) that the rules regenerated from /repo on every run (Gen/C12.v) equal these, and (b) that the state machines
+   above take exactly the steps these rules prescribe (unfolding equations).  No proofs here. *)
+Definition m_filter_ignore_underscores (has_us : bool) : bool := negb has_us.               (* ignore_underscores *)
+Definition m_ctx_is_ignored (keepall has_us : bool) : bool := if keepall then false else has_us. (* from_dict: not filter(key) *)
+Definition m_ctx_is_included (in_ignored : bool) : bool := negb in_ignored.                  (* GenomeContext.__init__ *)
+Definition m_order_drops_underscore_names : bool := negb FIXED_ORDER.                        (* chromosome_order *)
+Definition m_included_action (in_ignored in_included : bool) : Z :=                           (* _included_groups *)
+  if in_ignored then -1 else if in_included then 0 else E_NOTINCL.                            (* -1 skip, 0 yield, >0 raise *)
+Definition m_walk_is_match (is_pending : bool) : bool := is_pending.                         (* name == next_name *)
+Definition m_walk_order_error (next_in_seen next_is_current : bool) : bool := next_in_seen || next_is_current.
+Definition m_walk_checks_before_yield : bool := AHEAD.
+Definition m_walk_leftover_error (pending_is_none : bool) : bool := negb pending_is_none.    (* after the walk *)
+Definition m_sync_check (in_seen in_order : bool) : Z :=                                      (* SynchedStream guards *)
+  if in_seen then E_SEEN else if negb in_order then E_NOTIN else 0.
+Definition m_sync_keeps_skipping (idx_in_range is_current : bool) : bool := idx_in_range && negb is_current.
+Definition m_sync_checks_before_yield : bool := SYNC_AHEAD.
+Definition m_lj_gets_default (same_name : bool) : bool := negb same_name.                    (* left_join *)
+Definition m_lj_final_ok (right_exhausted : bool) : bool := right_exhausted.                 (* its final assert *)
+Definition m_change_at (whole_keys_equal : bool) : bool := negb whole_keys_equal.            (* get_changes: key[i+1] != key[i] *)
+Definition m_change_offsets : Z * Z * Z * Z * Z := (1, 0, 0, -1, 1).   (* raw[1:] vs raw[:-1], boundary index = position + 1 *)
+Definition m_fast_path (first_last_equal : bool) : bool := first_last_equal.                 (* groupby fast path *)
+Definition m_join_key_and_payload_index : Z * Z := (0, 1).            (* join_groupbys: group on x[0], concatenate g[1] *)
+Definition m_get_data_names_first : bool := true.                      (* get_data: [chrom_name_node, run_length_node] *)
+Definition is_nil {A} (l : list A) : bool := match l with [] => true | _ => false end.
